@@ -82,6 +82,8 @@ class Recorder:
                        and k.get('status', 'open') == 'open']
         self.probe_mode = probe_mode
         self.max_err = {}
+        self.harness_errors = collections.Counter()
+        self.harness_examples = []
 
     def case(self, key, nontrivial=True, labels=()):
         """Count one executed case. key: JSON-able identity of the case."""
@@ -123,7 +125,7 @@ class Recorder:
         return dict(prop=self.prop, rel=self.rel, evaluations=self.evaluations,
                     nontrivial=sorted(self.nontrivial), samples=self.samples,
                     labels=dict(self.labels), excluded=dict(self.excluded), rejected=self.rejected,
-                    max_err=self.max_err)
+                    max_err=self.max_err, harness_errors=dict(self.harness_errors), harness_examples=self.harness_examples)
 
 
 class Relation:
@@ -264,6 +266,14 @@ def run_shard(modname, relname, tier, shard, nshards, n, seed, progress_file=Non
             rel.check(case, rec)
         except Reject:
             rec.rejected += 1
+        except Violation:
+            raise
+        except Exception as e:      # an exception outside dadi_call blocks: a defect of the harness/oracle, not a verdict
+            tb = traceback.extract_tb(sys.exc_info()[2])
+            where = '%s:%d' % (os.path.basename(tb[-1].filename), tb[-1].lineno) if tb else '?'
+            rec.harness_errors['%s at %s' % (type(e).__name__, where)] += 1
+            if len(rec.harness_examples) < 2:
+                rec.harness_examples.append(dict(error='%s: %s' % (type(e).__name__, str(e)[:200]), where=where, case=_trim(case, 800)))
 
     try:
         if rel.enum is not None:
